@@ -1,7 +1,7 @@
 """Generator of abstract Dezyne files (see dznjson.py for the representation) and wire encoders."""
 
 IDS = ['A', 'B', 'My', 'Ns', 'Sub', 'IApi', 'IHal', 'T', 'Result', 'x', '_p', 'a1', 'Acme', 'Toaster', 'Z9_']
-TYPES = ['int', 'std::string', 'Sub::T', 'size_t', '::My::Data<int>', '']
+TYPES = ['int', 'std::string', 'Sub::T', 'size_t', '::My::Data<int>', '', ' unsigned int ', '\n    struct { int a; }\n', 'long long\t', '  size_t', ' ']   # data values are kept exactly as written
 FIELDS = ['Ok', 'Fail', 'Error', 'x', '_']
 
 
